@@ -8,13 +8,13 @@ import Mathlib.Tactic.Linarith
 namespace Mpir.Toom8
 open Mpir.MulAlgo (Interp)
 
-/-- toom_interpolate_16pts.c:279-455.  Write f = Σ c_i x^i (i ≤ 15) and g_j = c_{2j+1} + W·c_{2j+2} (j ≤ 6): the
+/-- toom_interpolate_16pts.c:273-445.  Write f = Σ c_i x^i (i ≤ 15) and g_j = c_{2j+1} + W·c_{2j+2} (j ≤ 6): the
     "coupled" coefficient pairs.  Given the nine values as toom_couple_handling leaves them —
     r4 = Σ g_j + c15 + W·c0, r3/r2/r1 = Σ g_j u^j + c15·u^7 + W·⌊c0/u⌋ for u = 4, 16, 64,
     r6/r5/r7 = Σ g_j u^(6−j) + ⌊c15/u⌋ + W·c0·u^7, r8 = c0, r0 = c15 (c15 = 0 when half = 0) —
     the sequence returns c0, g0 … g6, c15; each of the nine exact divisions (by 255·188513325, 2835·64, 255·4,
     255·182712915, 42525·16, 9·16, 2, 2, 2) is applied to a multiple of its divisor; the three values shifted right
-    LOGICALLY (`mpn_rshift` :445, :449, :453) are 2·g1, 2·g2, 2·g0. -/
+    LOGICALLY (`mpn_rshift` :436, :440, :444) are 2·g1, 2·g2, 2·g0. -/
 theorem interp16_spec (c0 c15 g0 g1 g2 g3 g4 g5 g6 W : Int) (half : Bool) (hh : half = false → c15 = 0) :
     let r := interp16 c0
       (68719476736 * g0 + 1073741824 * g1 + 16777216 * g2 + 262144 * g3 + 4096 * g4 + 64 * g5 + g6 + c15 / 2 ^ 6 + W * (c0 * 2 ^ 42))
